@@ -80,6 +80,7 @@ def build(vi, seed, override=None, by2_override=None):
         scn.update(override)
     if kind == "tls":
         scn["history"] = HIST
+        scn.setdefault("close_alerts", ("c", "s"))       # the connection ends with (encrypted) closing alerts
         victim = scen.tls_flow(scn, seed, 0)
     else:
         victim = scen.quic_flow(scn, seed, 0)
@@ -334,7 +335,7 @@ def run_case(case):
         scids = [b"", bytes(range(0xC0, 0xC8))]
         versions = [1, 0, 0x6B3343CF, 0x0A0A0A0A]
         bodies = [b"", bytes(range(0xA0, 0xB5)), b"\x00" + bytes(range(1, 40)), bytes([0x40, 0x64]) + bytes(100), bytes(1180)]
-        fbs = [0xC0, 0xC3, 0xD1, 0xE2, 0xF0, 0xFF, 0x80, 0xCC] if tier == "quick" else list(range(0x80, 0x100, 1))
+        fbs = [0xC0, 0xC3, 0xD1, 0xE2, 0xF0, 0xFF, 0x80, 0xCC] if tier == "quick" else list(range(0x80, 0x100, 5)) + [0xFF]
         combos = [(fb, v, dc, sc, bi, di) for fb in fbs for v in versions for dc in range(len(dcids)) for sc in range(len(scids))
                   for bi in range(len(bodies)) for di in range(len(dsts))
                   if tier != "quick" or (bi + dc + di) % 2 == 0 or fb >= 0xF0]
